@@ -195,14 +195,17 @@ impl core::fmt::Write for Sink {
 const HEADER: &[u8] = b"MockDisplay[\n";
 
 macro_rules! c20_pattern {
-    ($name:ident, $C:ty, [$($row:literal),*], $rows:expr, $w:expr) => {
+    ($name:ident, $C:ty, [$($row:literal),*], $rows_total:expr, $w:expr) => {
         /// listed pattern -> from_pattern: every cell has the colour its character designates,
         /// cells outside the pattern are untouched
         #[cfg_attr(kani, kani::proof, kani::unwind(66))]
         pub fn $name() {
             // rows are slices of longer literals: a literal that ends exactly where `chars()` ends makes
             // CBMC form a one-past-the-end pointer and lose constant folding (see DESIGN A.1, strings)
-            let pat: &[&str] = &[$(&concat!($row, "~")[..$row.len()]),*];
+            // ... and the slice of rows is a prefix of a longer array for the same reason (the end pointer of
+            // `pattern.iter()` must lie inside the object)
+            let all: [&str; $rows_total + 1] = [$(&concat!($row, "~")[..$row.len()],)* "~"];
+            let pat: &[&str] = &all[..$rows_total];
             let d = MockDisplay::<$C>::from_pattern(pat);
             reach!(side_ok(&d), "reach.side_is_8");
             if !side_ok(&d) { return; }
@@ -216,13 +219,14 @@ macro_rules! c20_pattern {
         }
     };
 }
-c20_pattern!(c20_q_s_pattern_binary, BinaryColor, ["#. #", " ## ", "    ", ".  ."], 4, 4);
+// ($rows_total = number of rows in the list)
 c20_pattern!(c20_q_s_pattern_binary_full, BinaryColor,
     ["########", "#......#", "#. ## .#", "#. ## .#", "#......#", "########", "        ", "       ."], 8, 8);
-c20_pattern!(c20_q_s_pattern_rgb, Rgb565, ["KRGBYMCW", " W  K   "], 2, 8);
+c20_pattern!(c20_q_s_pattern_binary_short, BinaryColor, ["#. #", " ## ", "    ", ".  ."], 4, 4);
+c20_pattern!(c20_q_s_pattern_rgb, Rgb565, ["KRGBYMCW", " W  K  R"], 2, 8);
 c20_pattern!(c20_q_s_pattern_gray4, Gray4, ["0123456", "789ABCD", "EF     "], 3, 7);
+c20_pattern!(c20_q_s_pattern_gray2, Gray2, ["   ", "0 3", "   "], 3, 3);
 c20_pattern!(c20_q_s_pattern_empty, BinaryColor, [], 0, 0);
-c20_pattern!(c20_q_s_pattern_blank_rows, Gray2, ["   ", "0 3", "   "], 2, 3);
 
 /// Debug output of a display whose first `$rows` rows are symbolic and the rest untouched: header,
 /// one line of 8 cell characters per row up to the last non-empty row, the skipped-rows note, "]"
@@ -235,8 +239,9 @@ macro_rules! c20_debug {
             if !side_ok(&d) { return; }
             let mut y = 0;
             while y < $rows { let mut x = 0; while x < S { d.set_pixel(Point::new(x, y), cell()); x += 1; } y += 1; }
-            // the last symbolic row is made non-empty so that the number of printed rows is concrete
-            if $rows > 0 { d.set_pixel(Point::new(S - 1, $rows - 1), Some(binary())); }
+            // the last symbolic row is made non-empty IN ITS FIRST CELL so that the search for trailing empty
+            // rows ends on a concrete value and the number of printed rows is concrete
+            if $rows > 0 { d.set_pixel(Point::new(0, $rows - 1), Some(binary())); }
             let mut s = Sink { buf: [0; 192], n: 0, non_ascii: false };
             write!(&mut s, "{:?}", d).unwrap();
             let rows: usize = $rows as usize;
